@@ -92,44 +92,81 @@ structure St where
   usedScalars : List String := []
   deriving Repr, DecidableEq, Inhabited
 
+/-- `kind n` = which `isinstance` test `self.schema.type_map.get(n)` passes (`none` = not in the
+    type map); `scalars` = `self.custom_scalars`; `snake` = `self.convert_to_snake_case` -/
 structure Env where
-  schema : Schema
+  kind : String → Option Kind
   scalars : ScalarCfg := []
   snake : Bool := true
 
+/-- what `_parse_named_type_node` appends to the generator's lists / reports as `used_custom_scalar` -/
+inductive Use where
+  | plain                       -- a scalar that is not configured
+  | input (n : String)          -- `_used_inputs.append(n)`
+  | enum (n : String)           -- `_used_enums.append(n)`
+  | custom (n : String)         -- `used_custom_scalar = n`
+  deriving Repr, DecidableEq, Inhabited
+
 /-- `_parse_named_type_node` -/
-def parseNamed (env : Env) (n : String) (nullable : Bool) (st : St) : Except GenErr (NAnn × Option String × St) :=
-  match env.schema.kindOf? n with
+def parseNamed (env : Env) (n : String) (nullable : Bool) : Except GenErr (NAnn × Use) :=
+  match env.kind n with
   | none => .error (.parsing s!"Argument type {n} not found in schema.")
-  | some .input => .ok (.leaf (.name n) nullable, none, { st with usedInputs := st.usedInputs ++ [n] })
-  | some .enum => .ok (.leaf (.name n) nullable, none, { st with usedEnums := st.usedEnums ++ [n] })
+  | some .input => .ok (.leaf (.name n) nullable, .input n)
+  | some .enum => .ok (.leaf (.name n) nullable, .enum n)
   | some .scalar =>
     match lookupScalar env.scalars n with
-    | none => .ok (.leaf (.name ((Util.lookupStr n Tables.inputScalarsMap).getD "Any")) nullable, none, st)
-    | some d => .ok (.leaf (.name d.typeName) nullable, some n, st)
+    | none => .ok (.leaf (.name ((Util.lookupStr n Tables.inputScalarsMap).getD "Any")) nullable, .plain)
+    | some d => .ok (.leaf (.name d.typeName) nullable, .custom n)
   | some _ => .error (.parsing s!"Incorrect argument type {n}")
 
 /-- `_parse_type_node` -/
-def parseTypeNode (env : Env) : TypeRef → (nullable : Bool) → St → Except GenErr (NAnn × Option String × St)
-  | .named n, nullable, st => parseNamed env n nullable st
-  | .list t, nullable, st =>
-    match parseTypeNode env t nullable st with
-    | .ok (sub, used, st) => .ok (.list sub nullable, used, st)
+def parseTypeNode (env : Env) : TypeRef → (nullable : Bool) → Except GenErr (NAnn × Use)
+  | .named n, nullable => parseNamed env n nullable
+  | .list t, nullable =>
+    match parseTypeNode env t nullable with
+    | .ok (sub, use) => .ok (.list sub nullable, use)
     | .error e => .error e
-  | .nonNull t, _, st => parseTypeNode env t false st
+  | .nonNull t, _ => parseTypeNode env t false
 
-/-- `_get_dict_value` -/
-def dictValue (env : Env) (py : String) (used : Option String) (st : St) : DictVal × St :=
-  match used with
-  | none => (.name py, st)
-  | some sc =>
-    let st := { st with usedScalars := st.usedScalars ++ [sc] }
+/-- `_get_dict_value` (the expression; the append to `_used_custom_scalars` is `St.record`) -/
+def dictValue (env : Env) (py : String) : Use → DictVal
+  | .custom sc =>
     match lookupScalar env.scalars sc with
     | some d =>
       match d.serializeName with
-      | some f => (.call f py, st)
-      | none => (.name py, st)
-    | none => (.name py, st)          -- unreachable: `used` is only set for configured scalars
+      | some f => .call f py
+      | none => .name py
+    | none => .name py          -- unreachable: `custom` is only reported for configured scalars
+  | _ => .name py
+
+/-- the side effects of one loop iteration on the generator's lists -/
+def St.record (st : St) : Use → St
+  | .plain => st
+  | .input n => { st with usedInputs := st.usedInputs ++ [n] }
+  | .enum n => { st with usedEnums := st.usedEnums ++ [n] }
+  | .custom n => { st with usedScalars := st.usedScalars ++ [n] }
+
+/-- everything one loop iteration of `generate` produces for a variable definition -/
+structure Item where
+  org : String                -- the GraphQL variable name: key of the `variables` dict
+  arg : Arg
+  value : DictVal
+  use : Use
+  deriving Repr, DecidableEq, Inhabited
+
+def item (env : Env) (v : VarDef) : Except GenErr Item :=
+  let py := pyVar env.snake v.name
+  match parseTypeNode env v.type true with
+  | .error e => .error e
+  | .ok (ann, use) => .ok ⟨v.name, ⟨py, ann, ann.opt⟩, dictValue env py use, use⟩
+
+def items (env : Env) : List VarDef → Except GenErr (List Item)
+  | [] => .ok []
+  | v :: vs =>
+    match item env v, items env vs with
+    | .ok i, .ok is => .ok (i :: is)
+    | .error e, _ => .error e
+    | _, .error e => .error e
 
 structure Out where
   required : List Arg := []          -- without the leading `self`
@@ -137,30 +174,18 @@ structure Out where
   dict : List (String × DictVal) := []
   deriving Repr, DecidableEq, Inhabited
 
-/-- the loop body of `generate` -/
-def step (env : Env) (acc : Out × St) (v : VarDef) : Except GenErr (Out × St) :=
-  let (out, st) := acc
-  let py := pyVar env.snake v.name
-  match parseTypeNode env v.type true st with
-  | .error e => .error e
-  | .ok (ann, used, st) =>
-    let (dv, st) := dictValue env py used st
-    let arg : Arg := ⟨py, ann, ann.opt⟩
-    let out :=
-      if ann.opt then { out with optional := out.optional ++ [arg], dict := out.dict ++ [(v.name, dv)] }
-      else { out with required := out.required ++ [arg], dict := out.dict ++ [(v.name, dv)] }
-    .ok (out, st)
+def outOf (is : List Item) : Out :=
+  { required := (is.filter (fun i => !i.arg.optional)).map (·.arg),
+    optional := (is.filter (fun i => i.arg.optional)).map (·.arg),
+    dict := is.map (fun i => (i.org, i.value)) }
 
-def generateFrom (env : Env) : List VarDef → Out × St → Except GenErr (Out × St)
-  | [], acc => .ok acc
-  | v :: vs, acc =>
-    match step env acc v with
-    | .ok acc => generateFrom env vs acc
-    | .error e => .error e
-
-/-- `ArgumentsGenerator.generate` -/
+/-- `ArgumentsGenerator.generate`: the signature, the dict, and the generator's lists afterwards.
+    (An exception leaves the lists partially extended; the whole run aborts then, so that state is
+    never observed.) -/
 def generate (env : Env) (defs : List VarDef) (st : St) : Except GenErr (Out × St) :=
-  generateFrom env defs ({}, st)
+  match items env defs with
+  | .error e => .error e
+  | .ok is => .ok (outOf is, is.foldl (fun st i => st.record i.use) st)
 
 /-- `arguments.args` as emitted: `self`, required, optional (in that order) -/
 def Out.params (o : Out) : List Arg := o.required ++ o.optional
